@@ -55,5 +55,8 @@ for mid, d in sorted(DESC.items()):
         "how_run": "mutrun.sh: scratch worktree of /repo HEAD + patch under /tmp, simulator copy built against it, ./check <prop> quick; removed afterwards",
         "note": d.get("note", ""),
     }
+    if d.get("neutralised"):
+        meta["neutralised"] = d["neutralised"]
+        meta["caught"] = None
     json.dump(meta, open(os.path.join(dst, "meta.json"), "w"), indent=1)
     print(mid, "caught" if meta["caught"] else ("MISSED" if meta["caught"] is False else "not run"), [r["exit"] for r in runs])
